@@ -386,6 +386,11 @@ def check_c14(prop, tier):
 def c14_replay_eval(cfg):
     n = cfg.N
     s = cfg.params[0] + cfg.params[1]
+    # as in the check, the same split on the other trajectory is built first
+    # (a failure may need that predecessor; one that does not shows anyway)
+    other = "revolve" if cfg.params[2] == "maximum" else "maximum"
+    c14_profile(D.Config("Multistage", (cfg.params[0], cfg.params[1], other),
+                         n))
     p = c14_profile(cfg)
     base = c14_profile(D.Config("Multistage", (0, s, cfg.params[2]), n))
     return p, base
